@@ -670,3 +670,132 @@ def check_orphan_pf(case, rec):
 
 
 SUBS.append(Sub("orphans_phasefield", check_orphan_pf, gen=orphan_pf_cases, quick=60, thorough=500, shards=4))
+
+
+# ------------------------------------------------------------------------------------------
+# (added by the lead) orphan nodes under every time scheme: the matrix a transient step inverts is a combination of K, C, M (M alone
+# for the explicit scheme, C-dominated for the parabolic one); whatever it is, the orphan dofs must not make it singular, carry zero,
+# and the response of the mesh nodes is the one of the mesh without orphan nodes
+
+
+ORPHAN_SCHEMES = ["newmark", "midpoint", "hht", "hht_newmark", "euler_implicit", "euler_explicit", "parabolic"]
+
+
+def enum_orphans_dynamic(tier):
+    sq = [[0.0, 0.0], [1.2, 0.0], [1.0, 0.9], [0.1, 1.0]]
+    for et in ("TRI3", "QUAD4", "TRI6"):
+        r = dict(verts=sq, h=0.5, elemType=et, organised=(et == "QUAD4"), extrude=None, layers=0, A=None, b=None, perm=None, orphans=0)
+        for algo in ORPHAN_SCHEMES:
+            for sim in (("elastic",) if algo != "parabolic" else ("thermal", "elastic")):
+                for orphans, perm in ((1, None), (3, 5)):
+                    yield dict(recipe=r, algo=algo, sim=sim, orphans=orphans, perm=perm, dt=0.05)
+
+
+def check_orphans_dynamic(case, rec):
+    from EasyFEA import AlgoType
+
+    r0 = dict(case["recipe"], orphans=0, perm=None)
+    r1 = dict(case["recipe"], orphans=int(case["orphans"]), perm=case["perm"])
+    algo, sim = case["algo"], case["sim"]
+    sig = dict(algo=algo, sim=sim, orphans=int(case["orphans"]), permuted=case["perm"] is not None)
+    rec.label("algo:" + algo, "sim:" + sim, f"orphans:{case['orphans']}")
+    out = []
+    for r in (r0, r1):
+        mesh = gm.build(r)
+        X = np.asarray(mesh.coord, float)
+        orph = np.asarray(mesh.orphanNodes, int)
+        used = np.setdiff1d(np.arange(mesh.Nn), orph)
+        xs = X[used, 0]
+        left = used[xs <= xs.min() + 0.25 * np.ptp(xs)]
+        right = used[xs >= xs.max() - 0.25 * np.ptp(xs)]
+        if sim == "thermal":
+            simu = Simulations.Thermal(mesh, Models.Thermal(k=1.5, c=2.0))
+            simu.rho = 1.2
+            simu.add_dirichlet(left, [1.0], ["t"])
+            simu.add_neumann(right, [0.5], ["t"])
+            ncomp = 1
+        else:
+            simu = Simulations.Elastic(mesh, Models.Elastic.Isotropic(2, E=10.0, v=0.3, planeStress=True))
+            simu.rho = 1.2
+            simu.Set_Rayleigh_Damping_Coefs(coefM=0.3, coefK=0.05)
+            simu.add_dirichlet(left, [0.0, 0.01], ["x", "y"])
+            simu.add_neumann(right, [0.3, -0.2], ["x", "y"])
+            ncomp = 2
+        if algo == "parabolic":
+            simu.Solver_Set_Parabolic_Algorithm(case["dt"], 0.5)
+        else:
+            simu.Solver_Set_Hyperbolic_Algorithm(case["dt"], algo=AlgoType(algo), alpha=0.1)
+        steps = []
+        with warnings.catch_warnings(record=True) as wlist:
+            warnings.simplefilter("always")
+            for _ in range(2):
+                steps.append(np.asarray(simu.Solve(), float).reshape(mesh.Nn, ncomp).copy())
+        sing = [w for w in wlist if "singular" in str(w.message).lower() or "MatrixRank" in type(w.message).__name__]
+        if sing and orph.size == 0:
+            raise Inconclusive("the step is singular without any orphan node")
+        rec.require(not sing, "singular_warning", f"{sim} {algo}: singular-matrix warning with {orph.size} orphan node(s)", **sig)
+        pt = simu.problemType
+        rates = [np.asarray(simu._Get_v_n(pt), float).reshape(mesh.Nn, ncomp)]
+        if algo != "parabolic":
+            rates.append(np.asarray(simu._Get_a_n(pt), float).reshape(mesh.Nn, ncomp))
+        out.append((X, steps, rates, orph, used))
+    (X0, s0, q0, _, _), (X1, s1, q1, orph, used1) = out
+    finite = all(np.all(np.isfinite(a)) for a in s1 + q1)
+    if not rec.require(finite, "finite_solution", f"{sim} {algo}: non-finite state after two steps with {orph.size} orphan node(s)", **sig):
+        return
+    key = lambda P: [tuple(np.round(p, 9)) for p in P]  # noqa: E731
+    pos = {k: i for i, k in enumerate(key(X0))}
+    idx0 = np.array([pos[k] for k in key(X1[used1])], int)
+    for name, A1, A0 in [("u_step1", s1[0], s0[0]), ("u_step2", s1[1], s0[1]), ("v", q1[0], q0[0])] + ([("a", q1[1], q0[1])] if len(q1) > 1 else []):
+        scale = max(float(np.abs(A0).max()), 1e-9)
+        rec.close(A1[used1] - A0[idx0], scale, 1e-8, "unchanged_by_orphans",
+                  f"{sim} {algo}: {name} of the mesh nodes changes when {orph.size} orphan node(s) are added", field=name, **sig)
+        rec.close(A1[orph], scale, 1e-12, "orphan_dofs_zero", f"{sim} {algo}: {name} is not zero on the orphan nodes", field=name, **sig)
+    rec.nontrivial(float(np.abs(s0[1]).max()) > 0)
+
+
+SUBS.append(Sub("orphans_dynamic", check_orphans_dynamic, enum=enum_orphans_dynamic,
+                doc="element type x time scheme (all hyperbolic ones and the parabolic one) x elastic / thermal x orphan nodes appended or scattered"))
+
+
+# ------------------------------------------------------------------------------------------
+# (added by the lead) prescribed values given as ARRAYS, one value per listed node, for node lists of every size and order -
+# including a list that names every node of the mesh (its array then has the size of a whole-mesh field)
+
+
+def enum_dirichlet_arrays(tier):
+    sq = [[0.0, 0.0], [1.2, 0.0], [1.0, 0.9], [0.1, 1.0]]
+    for et in ("TRI3", "QUAD4", "TRI6"):
+        r = dict(verts=sq, h=0.5, elemType=et, organised=(et == "QUAD4"), extrude=None, layers=0, A=None, b=None, perm=None, orphans=0)
+        for which in ("boundary_sorted", "boundary_shuffled", "all_sorted", "all_shuffled", "all_interior_first", "all_but_one_shuffled"):
+            yield dict(recipe=r, which=which)
+
+
+def check_dirichlet_arrays(case, rec):
+    mesh = gm.build(case["recipe"])
+    X = np.asarray(mesh.coord, float)
+    Nn = mesh.Nn
+    bn = np.sort(gm.boundary_nodes(mesh))
+    inner = np.setdiff1d(np.arange(Nn), bn)
+    which = case["which"]
+    shuffle = lambda a: a[np.argsort((a * 7919 + 13) % 101, kind="stable")]  # noqa: E731  (a fixed, order-scrambling permutation)
+    nodes = dict(boundary_sorted=bn, boundary_shuffled=shuffle(bn), all_sorted=np.arange(Nn), all_shuffled=shuffle(np.arange(Nn)),
+                 all_interior_first=np.concatenate([inner, bn]), all_but_one_shuffled=shuffle(np.arange(Nn))[:-1])[which]
+    sig = dict(elemType=case["recipe"]["elemType"], which=which)
+    rec.label("nodes:" + which)
+    vals = 0.01 * (1.0 + X[nodes, 0] - 2.0 * X[nodes, 1] + 0.25 * np.sin(5.0 * X[nodes, 0]))  # the value meant for nodes[i] is vals[i]
+    simu = Simulations.Elastic(mesh, Models.Elastic.Isotropic(2, E=10.0, v=0.3, planeStress=True))
+    simu.add_dirichlet(nodes.copy(), [vals.copy()], ["x"])
+    # y: clamped on the boundary (the x component alone leaves a rigid translation along y)
+    simu.add_dirichlet(bn.copy(), [0.0], ["y"])
+    simu.add_volumeLoad(np.arange(Nn), [0.0, -0.1], ["x", "y"])
+    u = np.asarray(simu.Solve(), float).reshape(Nn, 2)
+    rec.require(bool(np.all(np.isfinite(u))), "finite_solution", f"{which}: non-finite solution", **sig)
+    rec.close(u[nodes, 0] - vals, float(np.abs(vals).max()), 1e-12, "dirichlet_array_values",
+              f"{sig['elemType']}: add_dirichlet(nodes, [array], ['x']) with {which} ({nodes.size} of {Nn} nodes): the solution at nodes[i] is not array[i]", **sig)
+    rec.close(u[bn, 1], float(np.abs(vals).max()), 1e-12, "dirichlet_held", "clamped y component moved", **sig)
+    rec.nontrivial(True)
+
+
+SUBS.append(Sub("dirichlet_arrays", check_dirichlet_arrays, enum=enum_dirichlet_arrays,
+                doc="element type x node list (boundary / every node / all but one; sorted, shuffled, interior first) with one prescribed value per listed node"))
